@@ -5,7 +5,7 @@ ROOT = os.path.dirname(os.path.dirname(os.path.abspath(__file__)))
 HOOK_COMMITS = ["9f2e238", "471c9da"]
 TRUST = ("trusted base: rustc/std (String is the reference model), proptest 1.11 generators and shrinking, the harness "
          "(shadow heap, interpreter) itself; 64-bit little-endian only; lean_string compiled with feature verif-hooks; "
-         "every lsv-engine check runs twice, with the engine and the crate built without and with debug assertions "
+         "every lsv-engine check and C19 run twice, with the engine and the crate built without and with debug assertions "
          "(a violation in either is reported; an inconclusive pass without them never counts as a pass); bounded history length / text size as stated in the evidence rule")
 CHECKS = {
  "C01": ("exploration", "lsv", "model-based stateful PBT: proptest histories vs a String reference model, all storage states, shrinking to a replay",
